@@ -135,6 +135,7 @@ class World:
         self.autos_mask = cfg['autos'] if autos_mask is None else autos_mask
         self.commentary_num = commentary_num
         self.commentary_fn = commentary_fn
+        self.unknown_door = None      # player whose third-street up-card is dealt unknown (set by a check before play)
         self.free_showdown_num = free_showdown_num
         self.force_show = force_show
         if adopt is not None:
@@ -197,6 +198,20 @@ class World:
         """Dealer's argument for a k-card deal: None / int count / explicit card string."""
         mode = self.dealer
         st = self.state
+        if kind == 'hole' and self.unknown_door == player_index and st.street_index == 0:
+            # "unknown door card": this player's exposed third-street card is dealt as "??" (an observer who missed it); he
+            # then folds at his first decision, because from fourth street on nobody can open a round against an unknown
+            # up-card
+            pend = list(st.hole_dealing_statuses[player_index])[:k]
+            pool = sorted(st.get_dealable_cards(k), key=repr)
+            out = []
+            for up in pend:
+                if up:
+                    out.append('??')
+                    self.ctx.fault('unknown_door_card')
+                else:
+                    out.append(repr(pool.pop(self.ch.pick('dealer.card', len(pool)))))
+            return ''.join(out)
         if mode == 'hidden':
             # unknown cards only where nothing has to read them: burns and face-down hole cards; a card may also be
             # half known (rank without suit "A?", suit without rank "?s") - it is still an unknown card
@@ -346,6 +361,8 @@ class World:
                 self.raise_(s)
             else:
                 self.apply('post_bring_in')
+        elif ph == 'bet' and s.actor_index == self.unknown_door and s.can_fold():
+            self.apply('fold')
         elif ph == 'bet' and self.profile_name == 'allin_lab':
             i = s.actor_index
             short = s.stacks[i] + s.bets[i] <= 6 * self.cfg['bb'] * self.unit
